@@ -453,7 +453,7 @@ def gen_cases(tier, seed):
             pl = {'len': 70000}
             cases.append(mk(kind, nm(kind, pl, sp), extra(kind), pl, sp, rng))
     # G. random draws over the whole product (names of up to 4 / 6 components, all forms)
-    for _ in range(30000 if thorough else 400):
+    for _ in range(30000 if thorough else 1500):
         kind = rng.choice(['data', 'interest'])
         sk = rng.choice(SIGNER_KINDS + ['shrink'])
         if sk == 'shrink':
